@@ -893,6 +893,10 @@ func (c *FnCtx) execBlock(fr *Frame, st *State, b *ssa.BasicBlock, loops map[*ss
 			fr.rets = append(fr.rets, retState{st, res})
 			return
 		case *ssa.Panic:
+			// `assert panic(x)#n: expr`: what must hold whenever this panic site is reached
+			// (e.g. "not because the reactor was frozen")
+			c.curFrame, c.curInstr = fr, instr
+			c.callSiteAsserts(fr, st, instr)
 			if fr.depth == 0 || true {
 				if c.checks["panic"] || c.checks["all"] {
 					c.addObl("safe:panic", "", nil, st, TFalse, nil)
